@@ -253,33 +253,18 @@ func (a *analysis) sortedAccesses() []access {
 func emitLean(a *analysis, dir string) {
 	var b strings.Builder
 	classes := a.sortedClasses()
-	b.WriteString("/-! GENERATED by /verif/tools/lockfacts from the tree under test — do not edit.\n    Lock events per function, thread roots, the held→acquired edge set with witnesses. -/\nnamespace Generated\n\n")
-	b.WriteString("/-- lock classes: owner struct + field path; a cache mutex is qualified by the field that holds the cache;\n    `.wg` (request count), `.wgBlock` (token) and `Server.handlers`/`Server.listener` are waited-for resources -/\ninductive LockClass\n")
-	for _, c := range classes {
-		fmt.Fprintf(&b, "  | %s\n", leanID(c))
-	}
-	b.WriteString("  | unrecognised\n  deriving DecidableEq, Repr\n\ndef LockClass.name : LockClass → String\n")
-	for _, c := range classes {
-		fmt.Fprintf(&b, "  | .%s => %s\n", leanID(c), q(c))
-	}
-	b.WriteString("  | .unrecognised => \"unrecognised\"\n\n")
-	b.WriteString("def lockClasses : List LockClass := [" + joinMap(classes, func(c string) string { return "." + leanID(c) }) + "]\n\n")
-	// threads
+	b.WriteString("/-! GENERATED by /verif/tools/lockfacts from the tree under test — do not edit.\n    Lock events per function, thread roots, the held→acquired edge set with witnesses.\n    Lock classes are named owner struct + field path; a cache mutex is qualified by the field that holds the cache;\n    `.wg` (request count), `.wgBlock` (token), `Server.handlers` / `Server.listener` are waited-for resources. -/\nnamespace Generated\n\n")
+	b.WriteString("def lockClasses : List String := [" + joinMap(classes, q) + "]\n\n")
 	roots := []string{}
 	for _, r := range a.roots {
 		roots = append(roots, r.name)
 	}
 	sort.Strings(roots)
-	b.WriteString("/-- thread roots: exported entry points, goroutines (`go:`) and timer callbacks (`timer:`) -/\ninductive Thread\n")
-	for _, r := range roots {
-		fmt.Fprintf(&b, "  | %s\n", leanID(r))
-	}
-	b.WriteString("  deriving DecidableEq, Repr\n\ndef threads : List (Thread × String) := [\n")
+	b.WriteString("/-- thread roots: exported entry points, goroutines (`go:`) and timer callbacks (`timer:`) -/\ndef threadRoots : List String := [\n")
 	for i, r := range roots {
-		fmt.Fprintf(&b, "  (.%s, %s)%s\n", leanID(r), q(r), comma(i, len(roots)))
+		fmt.Fprintf(&b, "  %s%s\n", q(r), comma(i, len(roots)))
 	}
 	b.WriteString("]\n\n")
-	// events
 	b.WriteString("inductive LockEv\n  | lock (l : String) | unlock (l : String) | deferUnlock (l : String)\n  | call (f : String) | deferCall (f : String) | callback (slot : String) | dynCall (f : String) | closure (f : String)\n  | go (f : String) | timer (f : String) | recv (ch : String) | send (ch : String)\n  | wgAdd (w : String) | wgDone (w : String) | deferWgDone (w : String) | wgWait (w : String) | extWait (r : String)\n  | unrecognised (what : String)\n  deriving Repr\n\n")
 	b.WriteString("structure FnFacts where\n  name : String\n  events : List (LockEv × String)   -- event, source position\n  deriving Repr\n\ndef lockFacts : List FnFacts := [\n")
 	names := []string{}
@@ -304,8 +289,7 @@ func emitLean(a *analysis, dir string) {
 		fmt.Fprintf(&b, "] }%s\n", comma(i, len(names)))
 	}
 	b.WriteString("]\n\n")
-	// slot table
-	b.WriteString("/-- hand-written binding of the cache callback slots (tools/lockfacts/state.go), echoed for the record -/\ndef lockSlots : List (String × String × String) := [\n")
+	b.WriteString("/-- binding of the cache callback slots per cache class, derived from the cache.New call sites: (class, slot, closure) -/\ndef lockSlots : List (String × String × String) := [\n")
 	var rows []string
 	for c, m := range slotTable {
 		for s, t := range m {
@@ -314,28 +298,22 @@ func emitLean(a *analysis, dir string) {
 	}
 	sort.Strings(rows)
 	b.WriteString(strings.Join(rows, ",\n") + "\n]\n\n")
-	// edges
 	es := a.sortedEdges()
-	b.WriteString("structure LockEdge where\n  held : LockClass\n  acq : LockClass\n  heldAt : String\n  acqAt : String\n  root : String\n  chain : String\n  deriving Repr\n\n/-- every (held class, acquired class) pair on some analysed path, with the first witness found -/\ndef lockEdgeWitnesses : List LockEdge := [\n")
+	us := a.sortedUnrec()
+	b.WriteString("structure LockEdge where\n  held : String\n  acq : String\n  heldAt : String\n  acqAt : String\n  root : String\n  chain : String\n  deriving Repr\n\n/-- every (held class, acquired class) pair on some analysed path, with the first witness found -/\ndef lockEdgeWitnesses : List LockEdge := [\n")
 	for i, e := range es {
 		w := a.edges[e]
-		fmt.Fprintf(&b, "  { held := .%s, acq := .%s, heldAt := %s, acqAt := %s, root := %s, chain := %s }%s\n", leanID(e.from), leanID(e.to), q(w.heldAt), q(w.acqAt), q(w.root), q(w.chain), comma(i, len(es)))
+		fmt.Fprintf(&b, "  { held := %s, acq := %s, heldAt := %s, acqAt := %s, root := %s, chain := %s }%s\n", q(e.from), q(e.to), q(w.heldAt), q(w.acqAt), q(w.root), q(w.chain), comma(i, len(es)))
 	}
-	b.WriteString("]\n\ndef lockEdges : List (LockClass × LockClass) := [\n")
-	for i, e := range es {
-		fmt.Fprintf(&b, "  (.%s, .%s)%s\n", leanID(e.from), leanID(e.to), comma(i, len(es)))
+	b.WriteString("]\n\ndef lockEdges : List (String × String) := [\n")
+	all := []string{}
+	for _, e := range es {
+		all = append(all, fmt.Sprintf("  (%s, %s)", q(e.from), q(e.to)))
 	}
-	us := a.sortedUnrec()
-	for _, u := range us { // an unrecognised construct is also an unrankable edge
-		_ = u
+	if len(us) > 0 { // something was not understood: an edge nobody can rank
+		all = append(all, "  (\"unrecognised\", \"unrecognised\")")
 	}
-	if len(us) > 0 {
-		if len(es) > 0 {
-			b.WriteString("  ,")
-		}
-		b.WriteString("  (.unrecognised, .unrecognised)\n")
-	}
-	b.WriteString("]\n\n/-- constructs the extractor did not understand (position, what); must be empty -/\ndef lockUnrecognised : List (String × String) := [\n")
+	b.WriteString(strings.Join(all, ",\n") + "\n]\n\n/-- constructs the extractor did not understand (position, what); must be empty -/\ndef lockUnrecognised : List (String × String) := [\n")
 	for i, u := range us {
 		fmt.Fprintf(&b, "  (%s, %s)%s\n", q(u.at), q(u.what), comma(i, len(us)))
 	}
@@ -362,12 +340,19 @@ func emitLean(a *analysis, dir string) {
 		fmt.Fprintf(&b, "  (%s, %v, %v, %v, %s)%s\n", q(lc.callee), lc.claimed, lc.held, lc.ctor, q(lc.at), comma(i, len(lcs)))
 	}
 	b.WriteString("]\n\n")
+	b.WriteString("/-- where the repository token (wgBlock) is taken: (function, the take is an arm of a select that also waits for ctx.Done()) -/\ndef tokenTakes : List (String × Bool) := [")
+	tts := []string{}
+	for t := range a.tokenTakes {
+		tts = append(tts, "("+q(t[0])+", "+t[1]+")")
+	}
+	sort.Strings(tts)
+	b.WriteString(strings.Join(tts, ", ") + "]\n\n")
 	fmt.Fprintf(&b, "def lockStats : List (String × Nat) := [(\"functions\", %d), (\"events\", %d), (\"edges\", %d), (\"threads\", %d), (\"classes\", %d)]\n\nend Generated\n", len(names), nev, len(es), len(roots), len(classes))
 	write(filepath.Join(dir, "LockFacts.lean"), b.String())
 
 	// ------------------------------------------------------------ field accesses
 	b.Reset()
-	b.WriteString("import Generated.LockFacts\n/-! GENERATED by /verif/tools/lockfacts from the tree under test — do not edit.\n    Every read/write of a field of a struct that owns a mutex, with the statically held mutex classes. -/\nnamespace Generated\n\ninductive Field\n")
+	b.WriteString("/-! GENERATED by /verif/tools/lockfacts from the tree under test — do not edit.\n    Every read/write of a field of a struct that owns a mutex, with the statically held mutex classes.\n    `fieldAccessKeys` are the distinct (field, kind, held set, …) combinations; `fieldAccess` lists every access with its\n    function and position and the index of its key. -/\nnamespace Generated\n\n")
 	fields := []string{}
 	for _, o := range ownerOrder {
 		st := owners[o]
@@ -378,17 +363,32 @@ func emitLean(a *analysis, dir string) {
 			}
 		}
 	}
-	for _, f := range fields {
-		fmt.Fprintf(&b, "  | %s\n", leanID(f))
-	}
-	b.WriteString("  deriving DecidableEq, Repr\n\ndef fields : List (Field × String) := [" + joinMap(fields, func(f string) string { return "(." + leanID(f) + ", " + q(f) + ")" }) + "]\n\n")
-	b.WriteString("structure Access where\n  field : Field\n  write : Bool\n  ctor : Bool            -- the object is still under construction (not yet published) at this access\n  held : List LockClass  -- mutex classes held on this path\n  own : LockClass        -- the mutex of the accessed object itself\n  root : Thread          -- a thread root from which the access is reached (lifecycle roots are kept apart)\n  fn : String\n  pos : String\n  deriving Repr\n\ndef fieldAccess : List Access := [\n")
+	b.WriteString("def fieldIds : List String := [" + joinMap(fields, q) + "]\n\n")
+	b.WriteString("structure FieldKey where\n  field : String\n  write : Bool\n  ctor : Bool            -- the object is still under construction (not yet published) at this access\n  held : List String     -- mutex classes held on this path\n  own : String           -- the mutex of the accessed object itself\n  root : String          -- the thread root when it is a lifecycle entry point (Close, Shutdown, Run, New*), else \"\"\n  deriving Repr\n\nstructure FieldAcc where\n  key : Nat              -- index into fieldAccessKeys\n  fn : String\n  pos : String\n  root : String          -- a thread root that reaches the access\n  deriving Repr\n\n")
 	as := a.sortedAccesses()
+	keyIdx := map[string]int{}
+	var keys []access
+	idxOf := make([]int, len(as))
 	for i, ac := range as {
-		fmt.Fprintf(&b, "  { field := .%s, write := %v, ctor := %v, held := [%s], own := .%s, root := .%s, fn := %s, pos := %s }%s\n",
-			leanID(ac.owner+"."+ac.field), ac.write, ac.ctor, joinMap(ac.held, func(c string) string { return "." + leanID(c) }), leanID(ac.own), leanID(ac.root), q(ac.fn), q(ac.at), comma(i, len(as)))
+		k := fmt.Sprintf("%s.%s|%v|%v|%s|%s|%s", ac.owner, ac.field, ac.write, ac.ctor, strings.Join(ac.held, ","), ac.own, lifeKey(ac.root))
+		j, ok := keyIdx[k]
+		if !ok {
+			j = len(keys)
+			keyIdx[k] = j
+			keys = append(keys, ac)
+		}
+		idxOf[i] = j
 	}
-	fmt.Fprintf(&b, "]\n\ndef accessStats : List (String × Nat) := [(\"accesses\", %d), (\"fields\", %d)]\n\nend Generated\n", len(as), len(fields))
+	b.WriteString("def fieldAccessKeys : List FieldKey := [\n")
+	for i, ac := range keys {
+		fmt.Fprintf(&b, "  { field := %s, write := %v, ctor := %v, held := [%s], own := %s, root := %s }%s\n",
+			q(ac.owner+"."+ac.field), ac.write, ac.ctor, joinMap(ac.held, q), q(ac.own), q(lifeKey(ac.root)), comma(i, len(keys)))
+	}
+	b.WriteString("]\n\ndef fieldAccess : List FieldAcc := [\n")
+	for i, ac := range as {
+		fmt.Fprintf(&b, "  { key := %d, fn := %s, pos := %s, root := %s }%s\n", idxOf[i], q(ac.fn), q(ac.at), q(ac.root), comma(i, len(as)))
+	}
+	fmt.Fprintf(&b, "]\n\ndef accessStats : List (String × Nat) := [(\"accesses\", %d), (\"accessKeys\", %d), (\"fields\", %d)]\n\nend Generated\n", len(as), len(keys), len(fields))
 	write(filepath.Join(dir, "FieldAccess.lean"), b.String())
 }
 
